@@ -503,6 +503,40 @@ func c18Check(c *core.Ctx, f c18File, dir, path, formatted, desc string) {
 		}
 		os.Remove(good)
 		os.Remove(bad)
+		// -w with a file that does not parse among the arguments, in every position: non-zero exit, the
+		// unparsable file untouched, every other file either its original or its formatted text
+		broken := "x := (1\nprint x x\n"
+		for pos := 0; pos < 3; pos++ {
+			names := []string{"w0.evy", "w1.evy", "w2.evy"}
+			var args []string
+			for k, n := range names {
+				text := f.content
+				if k == pos {
+					text = broken
+				}
+				_ = os.WriteFile(filepath.Join(dir, n), []byte(text), 0o644)
+				args = append(args, filepath.Join(dir, n))
+			}
+			_, stderr, code, err := evyCmd(c, "", append([]string{"fmt", "-w"}, args...)...)
+			if err != nil {
+				c.Inconclusive(desc + ": " + err.Error())
+				break
+			}
+			c.Event("multi_file_write_runs", 1)
+			if code == 0 {
+				c.Violation("write-multi-unparsable-status", fmt.Sprintf("evy fmt -w with an unparsable file as argument %d of 3: exit 0 (stderr %q)", pos+1, firstN(stderr, 120)), desc, nil)
+			}
+			for k, n := range names {
+				got, _ := os.ReadFile(filepath.Join(dir, n))
+				switch {
+				case k == pos && string(got) != broken:
+					c.Violation("write-multi-unparsable-touched", fmt.Sprintf("evy fmt -w changed the unparsable file (argument %d of 3)", pos+1), desc, nil)
+				case k != pos && string(got) != f.content && string(got) != formatted:
+					c.Violation("write-multi-damaged", fmt.Sprintf("evy fmt -w with an unparsable file as argument %d: file %d holds neither its original nor its formatted text", pos+1, k+1), desc, nil)
+				}
+				os.Remove(filepath.Join(dir, n))
+			}
+		}
 	}
 	// file form: original text
 	for _, v := range []struct {
